@@ -1,5 +1,5 @@
 \* edge emission, copy/read-only focus (thorough)
-CONSTANTS N = 6  Par = {"p", "q"}  NVal = 2  NGrid = 2  MaxDepth = 1  MaxLevel = 3
+CONSTANTS N = 6  Par = {"p", "q"}  NVal = 2  NGrid = 2  MaxDepth = 1  MaxLevel = 4
           GridSlot = "stack"  PickleSerial = "fresh"
 CONSTANTS Keeps <- KeepsSmall  Acts <- ActsCopy  Parent0 <- ParentA  Cls0 <- ClsA
           ParOf <- McParOf  GridCls <- McGridCls  MatCls <- McMatCls
